@@ -104,8 +104,12 @@ Definition m_sheet_cssText_pinned := mkMut 501 [1; 2]%nat (fun n =>
 Definition m_sheet_insertRule := mkMut 2 [1; 2]%nat (flat
   [Guard; Check 2 6; Check 3 3; Check 4 5; Check 5 4; Check 6 3; Check 7 3; Check 8 4; Commit 1%nat]).
 (* insertRule(@namespace rule): inserted, then _cleanNamespaces may refuse to
-   delete the older rule of the same prefix (9, NoModificationAllowedErr) *)
+   delete the older rule of the same prefix (9, NoModificationAllowedErr);
+   repaired: the rule list is saved before the insertion and put back *)
 Definition m_sheet_insertRule_ns := mkMut 3 [1; 2]%nat (flat
+  [Guard; Check 2 6; Check 7 3; Check 8 4; Save [1; 2]%nat; Commit 1%nat; Commit 2%nat; Check 9 1]).
+(* pinned: no save *)
+Definition m_sheet_insertRule_ns_pinned := mkMut 503 [1; 2]%nat (flat
   [Guard; Check 2 6; Check 7 3; Check 8 4; Commit 1%nat; Commit 2%nat; Check 9 1]).
 (* insertRule(@import rule object) in a sheet that can fetch: the href is
    reloaded after the insertion; the imported sheet may be refused (10) *)
@@ -256,7 +260,7 @@ Definition m_vardecl_remove_pinned := mkMut 622 [1]%nat (flat [Commit 9%nat; Com
 (* ---- the catalogue ---- *)
 (* every rejection point before every unprotected observable commit, for every n *)
 Definition atomic_mutators : list mutator :=
-  [m_sheet_cssText; m_sheet_insertRule; m_sheet_deleteRule; m_ns_setitem_declared; m_ns_delitem;
+  [m_sheet_cssText; m_sheet_insertRule; m_sheet_insertRule_ns; m_sheet_deleteRule; m_ns_setitem_declared; m_ns_delitem;
    m_media_cssText; m_media_insertRule; m_media_deleteRule; m_media_media; m_media_name;
    m_style_cssText; m_style_selectorText; m_style_style;
    m_page_cssText; m_page_selectorText; m_page_style; m_page_insertRule; m_page_deleteRule;
@@ -276,9 +280,9 @@ Definition atomic_mutators : list mutator :=
 (* a rejection point after an unprotected observable commit *)
 Definition non_atomic_mutators : list mutator :=
   [m_sheet_cssText_pinned; m_media_cssText_pinned; m_namespace_cssText_pinned; m_margin_cssText_pinned;
-   m_prop_cssText_pinned; m_prop_priority_pinned; m_ml_mediaText_pinned;
+   m_prop_cssText_pinned; m_prop_priority_pinned; m_ml_mediaText_pinned; m_sheet_insertRule_ns_pinned;
    (* not repaired: known findings *)
-   m_sheet_insertRule_ns; m_sheet_insertRule_import; m_sheet_insertRule_list; m_media_insertRule_list;
+   m_sheet_insertRule_import; m_sheet_insertRule_list; m_media_insertRule_list;
    m_page_insertRule_list; m_import_cssText_fetch; m_import_href_fetch].
 
 (* mutators of classes with a read-only flag whose first phase is the guard *)
